@@ -149,6 +149,8 @@ class Gen:
     def value(self, T):
         r = self.r
         tag = T[0]
+        if tag == "int" and getattr(self, "small_ints", False):
+            return ["int", r.choice([0, 1, -1, 42, -7, 100000, -99999, r.randint(-1000, 1000)])]      # (TLC integers are 32-bit: strategies add to them)
         if tag == "int":
             return ["int", r.choice([0, 1, -1, 42, -7, 2 ** 31 - 1, -(2 ** 31) + 1, r.randint(-10 ** 6, 10 ** 6)])]
         if tag == "float":
@@ -227,6 +229,8 @@ class Gen:
             return self.value(T[2])
         if tag in ("final", "annotated"):
             return self.value(T[1])
+        if tag == "literal":
+            return r.choice(T[1])
         if tag == "dc":
             vals = []
             for f in T[2]:
